@@ -923,12 +923,13 @@ def errors(source, model, wcshelper):
 
     if model[prefix + 'theta'].vary and np.isfinite(err_theta):
         # pa error
+        # two points at the same distance from the centre, err_theta apart
         off1 = wcshelper.pix2sky(
             [xo + sx * np.cos(np.radians(theta)),
-             yo + sy * np.sin(np.radians(theta))])
+             yo + sx * np.sin(np.radians(theta))])
         off2 = wcshelper.pix2sky(
             [xo + sx * np.cos(np.radians(theta + err_theta)),
-             yo + sy * np.sin(np.radians(theta + err_theta))])
+             yo + sx * np.sin(np.radians(theta + err_theta))])
         source.err_pa = abs(
             bear(ref[0], ref[1], off1[0], off1[1])
             - bear(ref[0], ref[1], off2[0], off2[1]))
